@@ -5,7 +5,7 @@ cd /verif
 out=${1:-/verif/seeded_pending/detect.log}
 : > $out
 FAST="C02 C03 C04 C05 C06 C07 C08 C09 C11 C12 C13 C14 C15 C20"
-for d in $(ls -d seeded_pending/C*/[0-9] 2>/dev/null); do
+for d in $(ls -d ${MUT_GLOB:-seeded_pending/C*/[0-9]} 2>/dev/null); do
   patch=$d/patch.diff; [ -f $d/patch.ported.diff ] && patch=$d/patch.ported.diff
   own=$(echo $d | sed 's#.*/\(C[0-9][0-9]\)[a-z0-9]*/[0-9]*$#\1#')
   props="$FAST"
